@@ -5,6 +5,7 @@ import (
 	"crypto/sha256"
 	"encoding/hex"
 	"math/big"
+	"strconv"
 	"strings"
 	"testing"
 
@@ -308,5 +309,58 @@ func TestC15_Address(t *testing.T) {
 		if r.WantSample(true) {
 			r.Sample(true, map[string]interface{}{"kind": "address", "class": class, "text": s, "decodes": wantOK})
 		}
+	})
+}
+
+// TestC15_ValuesStayPut: "address text and address values correspond one-to-one" also means that a decoded value is the
+// caller's: it must not change when other texts are decoded or other byte strings encoded afterwards (a decoder that hands
+// out a shared buffer breaks this only for whoever keeps the result).
+func TestC15_ValuesStayPut(t *testing.T) {
+	r := ev.Get("C15")
+	hx.Check(t, "C15", 3000, 100000, func(t *rapid.T) {
+		n := rapid.IntRange(2, 6).Draw(t, "n")
+		type kept struct {
+			text string
+			val  []byte
+			copy []byte
+		}
+		var ks []kept
+		for i := 0; i < n; i++ {
+			var text string
+			if rapid.Bool().Draw(t, "short") {
+				// address-sized and shorter values
+				b := append(make([]byte, rapid.IntRange(0, 3).Draw(t, "zeros")), rapid.SliceOfN(rapid.Byte(), 0, 25).Draw(t, "b")...)
+				text = refB58Encode(b)
+			} else {
+				text = refB58Encode(rapid.SliceOfN(rapid.Byte(), 0, 90).Draw(t, "long"))
+			}
+			val, err := base58.Decode(text)
+			if err != nil {
+				if text == "" {
+					continue
+				}
+				t.Fatalf("Decode(%q): %v", text, err)
+			}
+			ks = append(ks, kept{text, val, append([]byte(nil), val...)})
+			// an encode in between must not disturb anything either
+			_ = base58.Encode(rapid.SliceOfN(rapid.Byte(), 0, 40).Draw(t, "enc"))
+			for j, k := range ks {
+				if !bytes.Equal(k.val, k.copy) {
+					t.Fatalf("the value decoded from %q changed from %x to %x after %d later calls", k.text, k.copy, k.val, len(ks)-1-j)
+				}
+			}
+		}
+		for _, k := range ks {
+			want, _ := refB58Decode(k.text)
+			if !bytes.Equal(k.val, want) {
+				t.Fatalf("the value kept for %q is %x, the text denotes %x", k.text, k.val, want)
+			}
+		}
+		first := ""
+		if len(ks) > 0 {
+			first = ks[0].text
+		}
+		r.Case(len(ks) >= 2, []byte("keep/"+strconv.Itoa(len(ks))+"/"+first))
+		r.Count("decoded_values_kept_across_calls")
 	})
 }
